@@ -7,6 +7,11 @@ package brontide
 
 //@ extern func (io.Writer) Write
 //@   ensures 0 <= result0 && result0 <= len(p)
+//@ // key material handed to these constructors is only read
+//@ extern func chacha20poly1305.New
+//@   ensures true
+//@ extern func hkdf.New
+//@   ensures true
 //@
 //@ func (c *cipherState) InitializeKey
 //@   props C11
